@@ -287,6 +287,8 @@ impl<P: ConnectionProvider> PoolState<P> {
         // configured timeout.  Without this, the pool can spend up to N × timeout (where N is the
         // number of servers) before returning an error — well past the point where clients have
         // given up and retransmitted the query.
+        #[cfg(feature = "verif-hooks")]
+        use crate::proto::verif::Instant;
         let deadline = Instant::now() + self.cx.options.timeout;
 
         let mut servers = VecDeque::from(servers);
@@ -368,6 +370,8 @@ impl<P: ConnectionProvider> PoolState<P> {
                     Ok(response) => {
                         // Penalize servers still in-flight (see `record_cancelled`).
                         let winner_rtt = batch_start.elapsed();
+                        #[cfg(feature = "verif-hooks")]
+                        let winner_rtt = Instant::now().saturating_duration_since(batch_start);
                         for abandoned in &in_flight {
                             if !completed.contains(&abandoned.ip()) {
                                 debug!(ip = ?abandoned.ip(), ?winner_rtt, "recording cancelled parallel server");
